@@ -101,6 +101,10 @@ def _inv(spec, lc, k):
 
 def _emit_inv(eng, ctx, spec, lc, label, k):
     lc.label = label
+    if label == 'step' and isinstance(k, str) and '#' in k:
+        # a loop of an inlined callee that is verified under its own contract: the inductive step was discharged there (from
+        # the callee's precondition, which the call site is checked against); only the initial establishment is per call site
+        return
     clauses = _inv(spec, lc, k)
     _bundle_n[0] += 1
     hyps = list(ctx.pc) + list(eng.hyps_extra)     # evaluated after the clauses: boxing facts included
